@@ -20,6 +20,16 @@ CHECKS = {
         "Trusts the harness printer (spec table) and the structural decoder; deeper trees only sampled.",
         "DESIGN.md §6 C05",
     ),
+    "C13": (
+        "exhaustive small-tree enumeration + Hypothesis grammar generation; inverse (round-trip) and fixpoint oracle",
+        "ASTs are obtained by parsing text printed by the harness's reference printer (so they lie in the "
+        "parser's image); each is rendered by the library's round-trip visitor, re-parsed and compared "
+        "(dataclass equality and decoded terms), and rendering is checked to be a fixpoint. Every "
+        "1-operator shape x every pair of 18 leaf kinds and every 2-operator shape x each leaf kind is "
+        "enumerated exhaustively; deeper trees with arbitrary Unicode strings are sampled.",
+        "Trusts the library parser as the inverse (its grouping is decided separately by C05) and the structural decoder.",
+        "DESIGN.md §6 C13",
+    ),
 }
 
 ALL = ["C%02d" % i for i in range(1, 21)]
